@@ -7,6 +7,7 @@ import (
 	"sync"
 	"time"
 
+	"github.com/jackc/pgx/v5/pgconn"
 	"pgregory.net/rapid"
 
 	"github.com/formancehq/ledger/verifharness/pgsim"
@@ -30,6 +31,10 @@ type Sched struct {
 	Switches int
 	commits  []commitRec
 	stmtSeq  int
+	// FaultWriter / FaultAt inject one deadlock error on the FaultAt-th data statement of that writer (0 = none)
+	FaultWriter int
+	FaultAt     int
+	faultFired  bool
 }
 
 type commitRec struct {
@@ -56,6 +61,7 @@ type writer struct {
 	waitFor  int64
 	inTx     bool
 	lastStmt int // statement sequence number when it last blocked
+	stmts    int // data statements issued so far
 	Panic    any
 }
 
@@ -92,6 +98,19 @@ func (s *Sched) install() {
 		s.stmtSeq++
 		s.mu.Unlock()
 		s.park(cur, wsYield, 0)
+		// an injected deadlock: the drawn writer's k-th data statement is chosen as the victim, once
+		// (a retryable failure; what the controller does next is its retry path)
+		low := strings.ToLower(strings.TrimSpace(sql))
+		if s.FaultAt > 0 && cur.id == s.FaultWriter && !s.faultFired && !strings.HasPrefix(low, "begin") && !strings.HasPrefix(low, "commit") && !strings.HasPrefix(low, "rollback") && !strings.HasPrefix(low, "savepoint") && !strings.HasPrefix(low, "release") {
+			cur.stmts++
+			if cur.stmts == s.FaultAt {
+				s.faultFired = true
+				s.mu.Lock()
+				s.Trace = append(s.Trace, fmt.Sprintf("w%d: (deadlock injected on that statement)", cur.id))
+				s.mu.Unlock()
+				return &pgconn.PgError{Severity: "ERROR", Code: "40P01", Message: "deadlock detected"}
+			}
+		}
 		return nil
 	}
 	sim.Hooks.Blocked = func(connID int64, waitFor int64) {
@@ -138,8 +157,66 @@ func (s *Sched) park(w *writer, st writerState, waitFor int64) {
 // Run executes all writers to completion under a drawn schedule. It returns
 // false (after reporting a harness error or violation) if the run got stuck.
 func (s *Sched) Run(t *rapid.T) bool {
+	// The shape of the interleaving is itself drawn:
+	//  sticky 0      a fresh uniform choice at every statement;
+	//  sticky n      the running writer usually keeps the processor (few, long-lived context switches);
+	//  preempt       writers run to completion one after the other, except that one drawn writer is preempted
+	//                once, right before a COMMIT / RELEASE SAVEPOINT of its own, and another one runs in that
+	//                window (the "B starts after A committed while C is about to commit" family).
+	mode := rapid.SampledFrom([]string{"uniform", "uniform", "sticky2", "sticky5", "sticky12", "preempt", "preempt"}).Draw(t, "scheduleShape")
+	sticky := map[string]int{"sticky2": 2, "sticky5": 5, "sticky12": 12}[mode]
+	var last *writer
+	victim, preempted := -1, false
+	if mode == "preempt" {
+		victim = rapid.IntRange(0, len(s.writers)-1).Draw(t, "preemptedWriter")
+	}
+	contains := func(rs []*writer, w *writer) bool {
+		for _, r := range rs {
+			if r == w {
+				return true
+			}
+		}
+		return false
+	}
+	pending := func(w *writer) string {
+		s.mu.Lock()
+		defer s.mu.Unlock()
+		prefix := fmt.Sprintf("w%d: ", w.id)
+		for i := len(s.Trace) - 1; i >= 0; i-- {
+			if strings.HasPrefix(s.Trace[i], prefix) {
+				return strings.ToUpper(strings.TrimPrefix(s.Trace[i], prefix))
+			}
+		}
+		return ""
+	}
 	return s.RunWith(t, func(runnable []*writer) *writer {
-		return runnable[rapid.IntRange(0, len(runnable)-1).Draw(t, "next")]
+		if mode == "preempt" {
+			if last != nil && contains(runnable, last) {
+				if last.id == victim && !preempted && rapid.IntRange(0, 2).Draw(t, "preemptHere") != 0 {
+					if p := pending(last); strings.HasPrefix(p, "COMMIT") || strings.HasPrefix(p, "RELEASE") {
+						preempted = true
+						var others []*writer
+						for _, r := range runnable {
+							if r != last {
+								others = append(others, r)
+							}
+						}
+						if len(others) > 0 {
+							last = others[rapid.IntRange(0, len(others)-1).Draw(t, "runInTheWindow")]
+							return last
+						}
+					}
+				}
+				return last
+			}
+			last = runnable[rapid.IntRange(0, len(runnable)-1).Draw(t, "next")]
+			return last
+		}
+		if sticky > 0 && last != nil && contains(runnable, last) && rapid.IntRange(0, sticky).Draw(t, "stay") != 0 {
+			return last
+		}
+		last = runnable[rapid.IntRange(0, len(runnable)-1).Draw(t, "next")]
+		return last
 	})
 }
 
